@@ -65,9 +65,27 @@ def _child_main(inv: dict, wfd: int) -> None:
 
             mod_name, fn_name = hook.split(":")
             getattr(importlib.import_module(mod_name), fn_name)(seams)
-        sys.argv = list(inv["argv"])
         sys.stdout = out
         sys.stderr = err
+        for pre_argv in inv.get("prelude", []):
+            # "process age": earlier generator runs in the same interpreter; their outcome is not judged
+            sys.argv = list(pre_argv)
+            try:
+                import nunavut.cli
+
+                nunavut.cli.main()
+            except BaseException:  # pylint: disable=broad-except
+                pass
+            import logging
+
+            for h in list(logging.getLogger().handlers):
+                logging.getLogger().removeHandler(h)
+            seams.record("prelude-done", None, None)
+            out.seek(0)
+            out.truncate()
+            err.seek(0)
+            err.truncate()
+        sys.argv = list(inv["argv"])
         try:
             mode = inv.get("entry", "cli")
             if mode == "cli":
@@ -154,9 +172,13 @@ def run_invocation(inv: dict, timeout_s: float = 120.0) -> dict:
         except ProcessLookupError:
             pass
     _, wstatus = os.waitpid(pid, 0)
+    return _parse_report(b"".join(chunks), timed_out, wstatus)
+
+
+def _parse_report(blob: bytes, timed_out: bool, wstatus: int) -> dict:
     events = []
     final = None
-    for line in b"".join(chunks).split(b"\n"):
+    for line in blob.split(b"\n"):
         if not line:
             continue
         try:
@@ -190,6 +212,34 @@ def run_invocation(inv: dict, timeout_s: float = 120.0) -> dict:
     if res["status"] == "harness":
         raise HarnessError(res.get("exc_msg", "child failed"))
     return res
+
+
+def run_invocation_fresh(inv: dict, hash_seed_value: int, timeout_s: float = 180.0) -> dict:
+    """The same invocation in a fresh interpreter started with the given PYTHONHASHSEED (cold process)."""
+    import subprocess
+
+    env = dict(os.environ)
+    env["PYTHONHASHSEED"] = str(hash_seed_value)
+    env["PYTHONDONTWRITEBYTECODE"] = "1"
+    here = os.path.dirname(os.path.dirname(os.path.abspath(__file__)))
+    env["PYTHONPATH"] = here
+    try:
+        p = subprocess.run(
+            [sys.executable, "-m", "simkit.onerun"],
+            input=json.dumps(inv).encode("utf-8"),
+            stdout=subprocess.PIPE,
+            stderr=subprocess.PIPE,
+            cwd=here,
+            env=env,
+            timeout=timeout_s,
+            check=False,
+        )
+    except subprocess.TimeoutExpired:
+        return _parse_report(b"", True, 0)
+    try:
+        return _parse_report(p.stdout, False, (p.returncode & 0xFF) << 8 if p.returncode >= 0 else 9)
+    except HarnessError as ex:
+        raise HarnessError("%s | stderr: %s" % (ex, p.stderr.decode("utf-8", "replace")[-1500:]))
 
 
 def run_in_fork(fn: typing.Callable[[], typing.Any], timeout_s: float = 600.0) -> typing.Any:
